@@ -243,6 +243,79 @@ def _primary(a):
     return s if a[0] in ("n", "k", "call", "sub") else "(" + s + ")"
 
 
+# ---- the same construction written with another legal ARGUMENT FORM of the builders (harness/forms.py) -------------
+#
+# dsl.py documents that the builders take `str | Variable | Iterable[str | Variable]` (VariableHint): P('A') == P(A),
+# P([A, B]) == P((A, B)) == P(v for v in (A, B)), Y @ 'X' == Y @ X, P[X](Y) == P(Y, interventions=X).  `to_source_alt`
+# renders a construction tree in one of these styles; only positions that take a VariableHint are rewritten
+# (arguments of P / PP[..] / Q[..] calls, the right operand of `@`, `|`, `&`, the subscripts of P / Sum / Q).
+
+ALT_STYLES = ("baseline", "str_names", "lists", "generators", "interventions_keyword")
+
+
+def _builder_kind(f):
+    """'P' / 'PP' / 'Sum' / 'Q' for the callee of a builder call (with any subscripts), else None"""
+    while isinstance(f, list) and f[0] == "sub":
+        f = f[1]
+    return f[1] if isinstance(f, list) and f[0] == "k" and f[1] in ("P", "PP", "Sum", "Q") else None
+
+
+def to_source_alt(a, style, hint=False) -> str:
+    """`hint`: this position takes a VariableHint (a plain name may be a str, a tuple may be any iterable)"""
+    if style == "baseline":
+        return to_source(a)
+    tag = a[0]
+    rec = lambda x, h=False: to_source_alt(x, style, h)  # noqa: E731
+    if tag == "n":
+        return repr(vname(int(a[1]))) if (hint and style == "str_names") else vname(int(a[1]))
+    if tag == "k":
+        return a[1]
+    if tag == "tup":
+        inner = ", ".join(rec(x, hint) for x in a[1:])
+        if hint and style == "lists":
+            return "[" + inner + "]"
+        if hint and style == "generators":
+            return "(v_ for v_ in (" + inner + ",))"
+        return "(" + inner + ")"
+    if tag == "call":
+        kind = _builder_kind(a[1])
+        f = a[1]
+        args = [rec(x, kind in ("P", "PP", "Q")) for x in a[2:]]
+        if style == "interventions_keyword" and kind in ("P", "PP") and f[0] == "sub" and \
+                (f[1] == ["k", "P"] or (f[1][0] == "sub" and f[1][1] == ["k", "PP"])):
+            idx = f[2]
+            inner = "(" + ", ".join(rec(x) for x in idx[1:]) + ")" if idx[0] == "tup" else rec(idx)
+            return _primary_alt(f[1], style) + "(" + ", ".join(args + ["interventions=" + inner]) + ")"
+        return _primary_alt(f, style) + "(" + ", ".join(args) + ")"
+    if tag == "sub":
+        idx = a[2]
+        takes_hint = a[1] in (["k", "P"], ["k", "Sum"], ["k", "Q"]) or (a[1][0] == "sub" and a[1][1] == ["k", "PP"])
+        if idx[0] == "tup":
+            inner = ", ".join(rec(x, takes_hint) for x in idx[1:])
+            if takes_hint and style == "lists":
+                inner = "[" + inner + "]"
+            elif takes_hint and style == "generators":
+                inner = "(v_ for v_ in (" + inner + ",))"
+        else:
+            inner = rec(idx, takes_hint)
+        return _primary_alt(a[1], style) + "[" + inner + "]"
+    if tag == "un":
+        return "(" + {"pos": "+", "neg": "-", "inv": "~"}[a[1]] + rec(a[2]) + ")"
+    if tag == "bin":
+        op = {"bor": "|", "band": "&", "add": "+", "sub": "-", "mul": "*", "div": "/", "matmul": "@"}[a[1]]
+        return "(" + rec(a[2]) + " " + op + " " + rec(a[3], a[1] in ("bor", "band", "matmul")) + ")"
+    raise ValueError(a)
+
+
+def _primary_alt(a, style):
+    s = to_source_alt(a, style)
+    return s if a[0] in ("n", "k", "call", "sub") else "(" + s + ")"
+
+
+def build_alt(a, style):
+    return eval(to_source_alt(a, style), {"__builtins__": {}}, namespace())  # noqa: S307
+
+
 _NS = None
 
 
